@@ -216,7 +216,7 @@ func (s *statement) materialise(rng *rand.Rand, rep, ptr int) {
 			case 2:
 				kind = 3
 			case 3:
-				kind = rng.Intn(6)
+				kind = rng.Intn(NumRepKinds)
 			}
 			e := Rerepresent(&pd.comm, kind, rng)
 			return &e
